@@ -89,6 +89,12 @@ CHECKS = {
         "ref": "DESIGN.md §3.9, §4 C11",
         "note": "Trusted: the sentinel harness fv/drivers/c11.py. The built-in scope is probed with the name 'scale'.",
     },
+    "C12": {
+        "technique": "TLA+ spec (PyExpr.tla: Python's expression grammar = Abs; Grammar.tla's transcription of the formula parser = Impl) model checked with TLC (difference theorem) over every short argument token string; each Python expression replayed through formulae and through CPython's eval with recording operands; recorded evaluations of random expressions judged by TLC (PyExpr_Trace); spec tree cross-checked with the ast module",
+        "text": "TLC enumerates every token string up to 5 tokens over {name, number, + - * / ** ( ) <} and up to 7 tokens over {name, number, + * ** ( )} (1.07M strings), proves that every expression of the Python fragment is accepted by the formula parser and that the two trees differ exactly on the PowIssue class, and exports the Python expressions; each is evaluated with recording operands inside a call through formulae and with eval(), and the received operator trees / constant values must be equal; the term name must be whitespace-invariant and spell the same Python AST as the source. Random expressions of depth <= 6 with random whitespace are evaluated by the real code and the received tree is judged by TLC against Python's tree. Literals (int/float/str/True/False/None), keyword arguments, nested calls, quote style and {e} = I(e) are checked on fixed cases.",
+        "ref": "DESIGN.md §3.3, §4 C12",
+        "note": "Trusted: the recording operand class (comparisons with a constant on the left are reflected by Python and excluded), CPython's eval/ast as ground truth. Chained comparisons, keyword repetition and unsupported operators are outside the domain. Open findings KF_C12_pow, KF_C12_name_parens.",
+    },
 }
 
 NOT_YET = "check not built yet (work in progress; see DESIGN.md §9 build order)"
